@@ -40,6 +40,7 @@ class Job:
     cut: List[str] = field(default_factory=lambda: list(ERROR_FUNCS))  # body := assume(false)
     cut_defined: List[str] = field(default_factory=list)  # functions WITH a body that get assume(false) (e.g. rehash)
     havoc: List[str] = field(default_factory=list)      # functions whose body is removed -> nondet return value
+    redirect: Dict[str, str] = field(default_factory=dict)  # calls to f are redirected to the harness stub g (goto-instrument --replace-calls): an assumed stand-in, listed under assumptions
     keep: List[str] = field(default_factory=list)
     unwind: Optional[int] = None
     unwindset: List[str] = field(default_factory=list)
@@ -199,6 +200,10 @@ def _run_job(job, prop, hdir, wd, res):
         ok, out = gi(f"--generate-function-body {q(rx)} --generate-function-body-options assume-false")
         if not ok:
             return fail("generate-function-body failed")
+    if job.redirect:
+        ok, out = gi(" ".join(f"--replace-calls {f}:{g}" for f, g in job.redirect.items()))
+        if not ok:
+            return fail("replace-calls failed")
     # 2. bodies of replaced callees are irrelevant: remove so that slicing drops what they call
     if job.replace and job.mode in ("dfcc", "legacy"):
         reps = [f for f in job.replace if f != job.enforce]
